@@ -39,6 +39,18 @@ theorem applyLayer_removes_only_named (dest : Str) (o : Opts) (es : List Entry) 
   exact ⟨fun p => ⟨h.no_capture i ho p, fun hp => h.names_keep p i hp (hall p hp)⟩, h.inode_out i ho,
     fun hanc => h.inode_quiet i ⟨ho, hanc⟩⟩
 
+/-- **a layer creates nothing it does not name**: a name that exists after the layer was applied and did not
+    exist before is the path of an entry, the staging directory, lies beneath one of these, or is a directory on
+    the way to one — in particular a whiteout or an opaque marker creates nothing anywhere else -/
+theorem applyLayer_creates_only_named (dest : Str) (o : Opts) (es : List Entry) (oldUmask : Nat) (w : World)
+    (habs : isAbs dest = true) (hsym : ∀ e ∈ es, e.typ ≠ .sym) (hw : LW (pathComps (clean dest)) w)
+    (q : Path) (i : Ino) (hq : ((applyLayerP dest o es oldUmask).run w).2.fs.lookup q = some i)
+    (h0 : w.fs.lookup q = none) : CovAnc (touchedL (clean dest) es) q := by
+  have h := applyLayer_frame dest o es oldUmask w habs hsym hw
+  cases Classical.em (CovAnc (touchedL (clean dest) es) q) with
+  | inl hc => exact hc
+  | inr hc => rw [h.absent_keep q h0 hc] at hq; cases hq
+
 /-- **a sequence of layers** applied one after the other leaves alone whatever none of them names -/
 theorem applyLayers_frame (dest : Str) (o : Opts) (um : Nat) (habs : isAbs dest = true) :
     ∀ (layers : List (List Entry)) (w : World), (∀ es ∈ layers, ∀ e ∈ es, e.typ ≠ .sym) →
